@@ -21,6 +21,7 @@ import (
 	"strconv"
 	"strings"
 	"sync"
+	"sync/atomic"
 	"testing"
 	"time"
 
@@ -293,10 +294,57 @@ func c16chainShape(ch []c16Conn, k int) string {
 	return sb.String()
 }
 
+
+// c16ReadLoopsParked waits until every goroutine that is inside (*Client).readLoop is blocked in
+// a socket read (goroutine state "IO wait" under packets.ReadPacket) or no such goroutine is
+// left; a read loop in any other state is on its way to one of the two.  false = watchdog.
+func c16ReadLoopsParked() bool {
+	deadline := time.Now().Add(c15rigWatchdog)
+	for i := 0; ; i++ {
+		buf := make([]byte, 1<<20)
+		for {
+			n := runtime.Stack(buf, true)
+			if n < len(buf) {
+				buf = buf[:n]
+				break
+			}
+			buf = make([]byte, 2*len(buf))
+		}
+		moving := 0
+		for _, g := range strings.Split(string(buf), "\n\n") {
+			if !strings.Contains(g, "mqttproxy.(*Client).readLoop") {
+				continue
+			}
+			head := g
+			if k := strings.IndexByte(g, '\n'); k >= 0 {
+				head = g[:k]
+			}
+			if !(strings.Contains(head, "[IO wait") && strings.Contains(g, "packets.ReadPacket")) {
+				moving++
+			}
+		}
+		if moving == 0 {
+			return true
+		}
+		if time.Now().After(deadline) {
+			return false
+		}
+		if i < 20 {
+			runtime.Gosched()
+			time.Sleep(200 * time.Microsecond)
+		} else {
+			time.Sleep(2 * time.Millisecond)
+		}
+	}
+}
+
 func TestVerif_C16_Sessions(t *testing.T) {
 	c15rigSkipForReplay(t)
 	r := kit.Start(t, "C16")
 	defer r.Finish()
+	defer func() {
+		r.Count("relay_links_that_belonged_to_no_pending_dial(ignored)", atomic.LoadInt64(&c15rigStaleLinks))
+	}()
 	scns := c16scenarios()
 	nPair := len(scns)
 	scns = append(scns, c16chains()...)
@@ -648,13 +696,29 @@ func c16run(r *kit.Run, rng *rand.Rand, s c16Scn, first bool) {
 			bad("admin-delete:client-still-registered", nil)
 			return
 		}
+		// Whether the old read loop lingers is the broker's own race: Client.close() only closes
+		// a channel that the read loop looks at BETWEEN two reads.  A read loop that was still on
+		// its way back from the last packet (the PINGREQ of the barrier) when the broker closed
+		// the client ends at once and tears its session down before the new CONNECT, which is
+		// the plain-reconnect schedule, not this one.  So the state is observed, not assumed:
+		// wait until every read loop is parked in a socket read or gone, then look at the books
+		// (a full teardown removes the session from the session map, a lingering one has not).
+		if !c16ReadLoopsParked() {
+			inc("watchdog: read loops neither parked in a read nor gone")
+			return
+		}
+		_, sessionStillLocal := rb.b.sessMgr.sessionMap.Load(cid)
+		closedAlready := false
 		select {
 		case <-la.upClosed:
-			// the broker has closed the socket itself: nothing lingers, this class is not established
-			r.Count("broker_closed_predecessor:socket_closed_by_broker_at_once(case skipped)", 1)
+			closedAlready = true
+		default:
+		}
+		if closedAlready || !sessionStillLocal {
+			// the broker has ended the old connection at once: nothing lingers, this class is not established
+			r.Count("broker_closed_predecessor:old_read_loop_ended_at_once(case skipped)", 1)
 			oldDown = true
 			return
-		default:
 		}
 		r.Count("broker_closed_predecessor_deregistered_and_lingering", 1)
 		step("old: closed and deregistered by the broker, its socket is still open and its read loop lingers")
